@@ -30,7 +30,7 @@ pub trait RDH: Sized {
 
 pub struct Msg;
 #[verifier::external_body]
-fn msg() -> Msg { Msg }
+fn opaque_msg() -> Msg { Msg }
 pub enum InputStatType { Error(Msg) }
 
 pub struct MemPosTracker { pub memory_address_bytes: u64 }
